@@ -198,9 +198,12 @@ async fn read_durable(db: &str, seed: u64) -> Result<Durable, String> {
     let store = p2panda_store::SqliteStoreBuilder::new().database_url(&format!("sqlite://{db}")).min_connections(1).max_connections(2).create_database(false).run_default_migrations(false).build().await.map_err(|e| e.to_string())?;
     let t = topic_of(seed);
     let log_id = LogId::from_topic(t);
-    let logs: BTreeMap<p2panda::VerifyingKey, Vec<LogId>> = store.resolve(&t).await.map_err(|e| e.to_string())?;
+    // Ground truth is what is stored, whether or not the topic association exists: the two authors
+    // of this world are known to the harness.
+    let _: BTreeMap<p2panda::VerifyingKey, Vec<LogId>> = store.resolve(&t).await.map_err(|e| e.to_string())?;
+    let authors = [node_key(seed).verifying_key(), p2panda::SigningKey::from_bytes(&key_bytes(seed, 2)).verifying_key()];
     let mut entries = BTreeMap::new();
-    for (author, _) in &logs {
+    for author in &authors {
         let es: Option<Vec<(Operation, Vec<u8>)>> = store.get_log_entries(author, &log_id, None, None).await.map_err(|e| e.to_string())?;
         for (op, _) in es.unwrap_or_default() {
             entries.insert((author.to_hex(), op.header.seq_num), (op.hash.to_hex(), op.body.is_some()));
